@@ -132,6 +132,8 @@ class World:
         if self.cfg['pool'] == 'array':
             ops.append(('reopen',))
         ops += [('refuse_bs',), ('refuse_seed',)]
+        if self.cfg['seed'] != 0:
+            ops.append(('refuse_seed0',))      # seed 0 is a legal seed that differs from the pool's
         return ops
 
     def pool_table(self):
@@ -232,14 +234,15 @@ class World:
             self.pool.close()
             self.pool = elfi.ArrayPool.open(name, prefix=prefix)
             self.sampler = None
-        elif k in ('refuse_bs', 'refuse_seed'):
+        elif k in ('refuse_bs', 'refuse_seed', 'refuse_seed0'):
             if not self.pool.has_context:
                 return None
             before = digest(self.pool_table())
-            kw = dict(batch_size=bs + 1, seed=seed) if k == 'refuse_bs' else dict(batch_size=bs, seed=seed + 1)
+            kw = {'refuse_bs': dict(batch_size=bs + 1, seed=seed), 'refuse_seed': dict(batch_size=bs, seed=seed + 1),
+                  'refuse_seed0': dict(batch_size=bs, seed=0)}[k]
             try:
                 elfi.Rejection(self.m, 'd', pool=self.pool, **kw)
-                return ('C05:mismatching-context-accepted:%s' % k[7:], what)
+                return ('C05:mismatching-context-accepted:%s' % k[7:].rstrip('0'), what)
             except ValueError:
                 pass
             if digest(self.pool_table()) != before:
